@@ -245,6 +245,9 @@ pub struct DisplayCase {
     /// a full-screen clear issued before the test image: 0 none, 1 green, 2 red, 3 blue, 4 white, 5 black
     #[serde(default)]
     pub pre_clear: u8,
+    /// change the orientation at run time (after the optional clear) before drawing the image
+    #[serde(default)]
+    pub reorient: Option<Orient>,
 }
 
 pub fn check_display(c: &DisplayCase, info: &mut CaseInfo) -> Result<(), String> {
@@ -267,6 +270,12 @@ pub fn check_display(c: &DisplayCase, info: &mut CaseInfo) -> Result<(), String>
         s.dut.clear(col).map_err(|e| format!("clear failed: {:?}", e))?;
         info.label("pre-cleared");
     }
+    let mut orient = cfg.orient;
+    if let Some(o) = c.reorient {
+        s.dut.set_orientation(o).map_err(|e| format!("set_orientation failed: {:?}", e))?;
+        orient = o;
+        info.label("re-oriented");
+    }
     match s.dut.draw_test_image() {
         Ok(()) => {}
         Err(e) => return Err(format!("drawing the test image on a display failed: {:?}", e)),
@@ -275,6 +284,11 @@ pub fn check_display(c: &DisplayCase, info: &mut CaseInfo) -> Result<(), String>
     if let Some(e) = wb.panel.errors.first() {
         return Err(format!("malformed traffic: {}", e));
     }
+    let cfg = &{
+        let mut c2 = cfg.clone();
+        c2.orient = orient;
+        c2
+    };
     let (lw, lh) = cfg.logical_size(cfg.orient);
     let bits = s.bits;
     let (white, red, green, blue) = if bits == 16 { (0xffff, 0xf800, 0x07e0, 0x001f) } else { (0x3ffff, 0x3f000, 0x00fc0, 0x0003f) };
@@ -321,8 +335,8 @@ pub fn check_display(c: &DisplayCase, info: &mut CaseInfo) -> Result<(), String>
 fn display_strategy() -> BoxedStrategy<DisplayCase> {
     let mut menu = gen::ConfigMenu::all_transports();
     menu.models = crate::models::builtin_models();
-    (gen::config(menu), 32u16..=120, 32u16..=120, any::<(u16, u16)>(), 0u8..12)
-        .prop_map(|(mut cfg, w, h, (a, b), pre)| {
+    (gen::config(menu), 32u16..=120, 32u16..=120, any::<(u16, u16)>(), 0u8..12, proptest::option::weighted(0.3, gen::orient()))
+        .prop_map(|(mut cfg, w, h, (a, b), pre, reorient)| {
             // pin-level transports: keep the picture small (cost)
             let (w, h) = if cfg.transport.pin_level() { (32 + w % 10, 32 + h % 10) } else { (w, h) };
             // windows of at least 32x32 (where the framebuffer allows) so that the predicates apply
@@ -340,7 +354,7 @@ fn display_strategy() -> BoxedStrategy<DisplayCase> {
                 1 => fh - cfg.h,
                 _ => (b / 4) % (fh - cfg.h + 1),
             };
-            DisplayCase { cfg, pre_clear: if pre < 6 { pre } else { 0 } }
+            DisplayCase { cfg, pre_clear: if pre < 6 { pre } else { 0 }, reorient }
         })
         .boxed()
 }
